@@ -15,7 +15,7 @@ if TYPE_CHECKING:
     from exabgp.bgp.neighbor import Neighbor
     from exabgp.protocol.ip import IP
 
-from exabgp.bgp.message.open.asn import AS_TRANS, ASN
+from exabgp.bgp.message.open.asn import ASN
 from exabgp.bgp.message.open.capability.capability import Capability
 from exabgp.bgp.message.open.capability.extended import ExtendedMessage
 from exabgp.bgp.message.open.capability.mp import MultiProtocol
@@ -125,7 +125,9 @@ class Negotiated:
         if isinstance(sent_asn4, ASN):
             self.local_as = sent_asn4
         self.peer_as = self.received_open.asn
-        if self.received_open.asn == AS_TRANS and self.asn4:
+        # RFC 6793 4.1: once both sides have announced the capability, the AS number it carries
+        # is used in lieu of the My Autonomous System field, whatever that field says
+        if self.asn4:
             asn4_capa = recv_capa.get(Capability.CODE.FOUR_BYTES_ASN, None)
             # ASN4 extends both Capability and ASN
             if isinstance(asn4_capa, ASN):
